@@ -103,12 +103,11 @@ def shard(ctx, n, sub, depth):
             failing = [info for info in c.jobs.values() if info.get("settled_obj") is err and info.get("prov", True)]
             # the job that raised: deepest job settled with this very exception object
             if failing:
-                deepest = max(failing, key=lambda inf: depth_of(c, inf))
-                chain = []
-                cur = deepest
-                while cur is not None:
-                    chain.append(cur)
-                    cur = c.jobs.get(cur["parent"])
+                # every job that was rejected with this very error before the workflow stopped: the raising job (or the
+                # duplicate that was handed its failure) and the ancestors the error travelled through on its way to the
+                # root.  When an equal call sits beneath two parents, the error can reach the root along one chain while
+                # the jobs of the other chain have not been rejected yet - those are not "ancestors that failed".
+                chain = sorted(failing, key=lambda inf: -depth_of(c, inf))
                 if len(chain) >= 3:
                     ctx.nontrivial(ast)
                 session = s.backend.session
@@ -121,7 +120,7 @@ def shard(ctx, n, sub, depth):
                         ctx.violation("failed-job-not-recorded", "no Job row for %s" % info["task"], w2)
                     elif row.status != "FAILED":
                         ctx.violation("ancestor-not-recorded-failed", "job %s (ancestor distance %d) has displayed status %s" % (
-                            info["task"], chain.index(info), row.status), w2)
+                            info["task"], depth_of(c, chain[0]) - depth_of(c, info), row.status), w2)
             else:
                 ctx.count("failing_job_not_identified")
         if i < 2:
